@@ -80,6 +80,7 @@ class BuiltinsMixin(AccessMixin):
         a = [norm_int(x) for x in args]
         if all(isinstance(x, int) for x in a):
             return range(*a)
+        self.event("range-dynamic", args=a, where=frame.where(node), node=node)
         sl = SymList(Sym.opaque(("range-elem", self.fresh("r"))), name=("range",) + tuple(self.name_of(x) for x in a))
         sl.range_args = a
         sl.length = a[0] if len(a) == 1 else None
@@ -448,6 +449,7 @@ class BuiltinsMixin(AccessMixin):
                 return b
             return Buf(cells=[0] * v, origin=frame.where(node))
         if isinstance(v, Sym):
+            self.event("alloc-dynamic", size=v, where=frame.where(node), node=node)
             b = Buf(cells=None, length=v, origin=frame.where(node))
             b.zero = True
             return b
